@@ -197,6 +197,11 @@ def probe_family(gen):
         "empty": (Reg("Empty"), {}),
         "anon": (Anon([("Aa", T("int"), ""), ("Bb", S, "")]), {"Aa": "1", "Bb": hx(b"anon-b")}),
         "anon1": (Anon([("Aa", T("int"), "")]), {"Aa": "1"}),
+        "anon0": (Anon([]), {}),
+        "panon0": (Ptr(Anon([])), {"v": {}}),
+        "panon": (Ptr(Anon([("Aa", T("int"), ""), ("Bb", S, "")])), {"v": {"Aa": "2", "Bb": hx(b"anon-p")}}),
+        "pempty": (Ptr(Reg("Empty")), {"v": {}}),
+        "anonslice": (Slice(Anon([])), [{}, {}]),
         "complex": (T("complex128"), ["0x3ff0000000000000", "0x4000000000000000"]),
         "complexslice": (Slice(T("complex128")), [["0x3ff0000000000000", "0x4000000000000000"], ["0x3ff0000000000000", "0x0000000000000000"]]),
         "bigrat": (Ptr(T("bigrat")), {"v": "22/7"}),
@@ -265,7 +270,22 @@ def graphs_family(gen, n):
                                           "L1": {"id": 13, "v": ["1", "2"]}, "L2": {"ref": 13}, "M1": {"id": 14, "v": [[hx(b"k"), "1"]]}, "M2": {"ref": 14}}, "tag": "graph:shared-all"})
     cases.append({"t": Slice(IFACE), "v": [{"t": Ptr(Slice(IFACE)), "v": {"id": 15, "v": [{"t": T("int"), "v": "1"}, {"t": Ptr(Slice(IFACE)), "v": {"ref": 15}}]}}], "modes": ["ref"], "tag": "graph:cycle-through-slice"})
     cases.append({"t": Ptr(Map(T("string"), IFACE)), "v": {"id": 16, "v": [[hx(b"self"), {"t": Ptr(Map(T("string"), IFACE)), "v": {"ref": 16}}]]}, "modes": ["ref"], "tag": "graph:cycle-through-map"})
-    for name in ("Node", "Node2", "Tree", "Graph", "Shared", "OneP", "Outer", "Deep"):
+    # a cycle through a shared *[]*T: every member points at the one family list, which is still being read
+    # when the first back-reference to it arrives (elements after that point must not be lost)
+    def member(i, name, fam, extra=None):
+        d = {"Name": hx(name), "Family": fam}
+        d.update(extra or {})
+        return {"id": i, "v": d}
+    F = 40
+    fam = {"id": F, "v": [member(41, b"ann", {"ref": F}), member(42, b"bob", {"ref": F}), member(43, b"cy", {"ref": F}), {"ref": 41}]}
+    cases.append({"t": Ptr(Slice(Ptr(Reg("Member")))), "v": fam, "modes": ["ref"], "tag": "graph:cycle-shared-slice-ptr"})
+    cases.append({"t": Reg("Member"), "v": {"Name": hx(b"root"), "Family": {"id": 44, "v": [member(45, b"a", {"ref": 44}), member(46, b"b", {"ref": 44}, {"Peers": [{"ref": 45}, {"ref": 46}]}), member(47, b"c", None)]}},
+                  "modes": ["ref"], "tag": "graph:cycle-shared-slice-field"})
+    cases.append({"t": Ptr(Reg("Member")), "v": {"id": 48, "v": {"Name": hx(b"m"), "ByName": [[hx(b"me"), {"ref": 48}], [hx(b"other"), member(49, b"o", None, {"Peers": [{"ref": 48}, {"ref": 49}]})]]}},
+                  "modes": ["ref"], "tag": "graph:cycle-through-map-field"})
+    cases.append({"t": Ptr(Reg("Member")), "v": {"id": 50, "v": {"Name": hx(b"p"), "Peers": [{"ref": 50}, member(51, b"q", None), {"ref": 50}, {"ref": 51}]}},
+                  "modes": ["ref"], "tag": "graph:cycle-through-slice-field"})
+    for name in ("Node", "Node2", "Tree", "Graph", "Shared", "OneP", "Outer", "Deep", "Member"):
         for _ in range(n):
             td = Ptr(Reg(name))
             cases.append({"t": td, "v": gen.value(td, 0, {"pool": {}, "cycles": True}), "modes": ["ref"], "tag": "graph:cyc:" + name})
